@@ -374,6 +374,22 @@ var scripts = []scriptT{
 	{steps: []string{"run", "valid", "data", "approve", "data", "valid", "valid", "valid", "data", "acc:idA", "data"}},
 }
 
+// every shape of a hello message in both listening states of the hello phase: phase x waiting
+// (absent, >= 30 s, 1..30 s, < 1 s) x prolongationRequest (absent, true, false); in pending-listen
+// (server, peer not trusted, waiting allowed) and in ready-listen (client)
+func init() {
+	for _, phase := range []string{"ready", "pending", "aborted", "foo"} {
+		for _, w := range []string{"", "60000", "15000", "500"} {
+			for _, p := range []string{"", "true", "false"} {
+				m := "msg:" + string(helloMsg(nil, phase, w, p))
+				scripts = append(scripts,
+					scriptT{steps: []string{"run", "valid", m, "timeout", "deferred"}},
+					scriptT{client: true, steps: []string{"run", "valid", m, "timeout", "deferred"}})
+			}
+		}
+	}
+}
+
 func scriptEvent(r *vh.Rng, step string, st int, storedID string, pay *int) []*event {
 	e := &event{wf: -1, allow: true}
 	for strings.HasPrefix(step, "wf") && strings.Contains(step, ":") && len(step) > 3 && step[2] >= '0' && step[2] <= '9' {
